@@ -399,6 +399,12 @@ func diffCheck(prop string) func(sc *Scenario, st *Stats) []Violation {
 				if maxCuts <= 0 && len(limits) > 900 {
 					maxCuts = 300
 				}
+				// step budget per transaction: every cut re-executes both interpreters up to the
+				// cut, so a 100k-step program times several hundred cuts would hold one worker
+				// for the better part of an hour (seen in a thorough pass) - sample instead
+				if budget := 3_000_000/(d.sl.Len()+1) + 6; (maxCuts <= 0 && len(limits) > budget) || maxCuts > budget {
+					maxCuts = budget
+				}
 				if maxCuts <= 0 || len(limits) <= maxCuts {
 					for k := range limits {
 						chosen = append(chosen, k)
